@@ -1,7 +1,9 @@
 package props
 
 import (
+	"runtime"
 	"strings"
+	"time"
 
 	"godsverif/core"
 
@@ -152,6 +154,122 @@ func runHugeLinear(c *core.Ctx, h, n int) {
 	x.put(val(0))
 	hi = 1
 	check("one element after Clear")
+	// a second generation right after a Clear of the LARGE container, looked at
+	// only after the scheduler had a chance to run anything the Clear may have
+	// left behind (clean-up deferred to a goroutine)
+	for i := 1; i <= 1000; i++ {
+		x.put(val(i))
+	}
+	c.Begin(x.name, "Clear", "then 1000 elements at once, then yield")
+	x.cont.Clear()
+	for i := 0; i < 1000; i++ {
+		x.put(val(i))
+	}
+	for i := 0; i < 200; i++ {
+		runtime.Gosched()
+	}
+	time.Sleep(2 * time.Millisecond)
+	lo, hi = 0, 1000
+	check("1000 elements put right after Clear, read after yielding")
 	c.Count("obs:huge-linear-cases", 1)
+	c.Nontrivial()
+}
+
+// runMillionOps: one small container lives through more than 2^20 put/take
+// pairs (position counters that are renormalised, generation stamps, indices
+// kept modulo something): every removal is checked against the element that
+// arithmetic says must come out.
+func runMillionOps(c *core.Ctx, h int) {
+	total := 1<<20 + 5000
+	if c.Tier == "thorough" {
+		total = 1<<22 + 5000
+	}
+	var name string
+	var put func(int)
+	var take, peek func() (int, bool)
+	var size func() int
+	capacity := 0
+	switch h % 5 {
+	case 0:
+		s := arraystack.New[int]()
+		name, put, take, peek, size = "ArrayStack", s.Push, s.Pop, s.Peek, s.Size
+	case 1:
+		s := linkedliststack.New[int]()
+		name, put, take, peek, size = "LinkedListStack", s.Push, s.Pop, s.Peek, s.Size
+	case 2:
+		q := arrayqueue.New[int]()
+		name, put, take, peek, size = "ArrayQueue", q.Enqueue, q.Dequeue, q.Peek, q.Size
+	case 3:
+		q := linkedlistqueue.New[int]()
+		name, put, take, peek, size = "LinkedListQueue", q.Enqueue, q.Dequeue, q.Peek, q.Size
+	default:
+		capacity = []int{3, 5, 7, 12, 100}[(h/5)%5]
+		q := circularbuffer.New[int](capacity)
+		name, put, take, peek, size = "CircularBuffer", q.Enqueue, q.Dequeue, q.Peek, q.Size
+	}
+	lifo := h%5 < 2
+	c.Begin(name, "put/take", total, "times on one instance", capacity)
+	// FIFO: elements 0,1,2,... go in; keep 0..2 waiting. LIFO: a floor of three
+	// elements, then push/pop pairs on top. Ring: every third step two puts and
+	// one take, so that it also overwrites.
+	next, out := 0, 0 // next value to put; (FIFO) next value expected out
+	var stack []int
+	doPut := func() {
+		put(next)
+		if lifo {
+			stack = append(stack, next)
+		} else if capacity > 0 && next-out == capacity {
+			out++ // a full ring discards the oldest
+		}
+		next++
+	}
+	doTake := func(step int) {
+		v, ok := take()
+		want := out
+		if lifo {
+			want = stack[len(stack)-1]
+			stack = stack[:len(stack)-1]
+		} else {
+			out++
+		}
+		if !ok || v != want {
+			c.Fail("take", "after-many-operations", "%s: removal at step %d of one long-lived instance returned (%d,%v), want %d", name, step, v, ok, want)
+		}
+	}
+	for i := 0; i < 3; i++ {
+		doPut()
+	}
+	for step := 0; step < total; step++ {
+		doPut()
+		if capacity > 0 && step%3 == 0 {
+			doPut()
+		}
+		doTake(step)
+		if step%65536 == 65535 || step == total-1 {
+			wantSize := next - out
+			if lifo {
+				wantSize = len(stack)
+			}
+			if sz := size(); sz != wantSize {
+				c.Fail("size", "after-many-operations", "%s: Size() = %d after %d steps, want %d", name, sz, step, wantSize)
+			}
+			if v, ok := peek(); wantSize > 0 {
+				want := out
+				if lifo {
+					want = stack[len(stack)-1]
+				}
+				if !ok || v != want {
+					c.Fail("peek", "after-many-operations", "%s: Peek() = (%d,%v) after %d steps, want %d", name, v, ok, step, want)
+				}
+			}
+			if capacity > 0 && step%3 == 0 {
+				// keep the ring from staying full for ever: drain a little
+				for next-out > 1 {
+					doTake(step)
+				}
+			}
+		}
+	}
+	c.Count("obs:million-operation-instances", 1)
 	c.Nontrivial()
 }
